@@ -74,6 +74,14 @@ RULE = ('corpus (BIP143 published examples) + structured stream: transactions wi
         'Transaction.sign(keys) as Key, hex, bytes, WIF or HDKey; then every preimage for every hash type against consensus and '
         'the signatures embedded in raw() against the independent verifier, again after a change + re-sign (nested P2WPKH '
         'from a locking script only while the proposed class nested_p2wpkh_from_locking_script is recorded). '
+        'INFERRED input types (session modes kn / kl / ka / kla / il / ia through add_input, knc / klc / kac / ilc through '
+        'Input() + Transaction(inputs, outputs)): witness_type is never passed and script_type only where nothing else '
+        'determines it; the library infers them from the locking script of the spent output, its address, both, or the '
+        'script type, with the private keys given (k*) or arriving with sign(keys) (i*); observation `inf` reads the witness '
+        'type the library holds for every input and the preimage Transaction.signature gives with it (what sign() signs) and '
+        'compares type with the kind of the spent output and preimage with consensus, before and after signing, then all '
+        'hash types, verify() and the embedded signatures against the independent verifier (nested kinds from a P2SH locking '
+        'script only while the proposed class nested_from_locking_script_keyed is recorded). '
         'non-trivial = the implementation returned a preimage / a signed transaction / a session; distinct by request')
 IMPL_TIMEOUT = 3000
 
@@ -740,6 +748,10 @@ def gen_sessions(rng, big):
                     if rng.random() < 0.4:
                         ops += [rng.choice(['oval~0~%d' % rng.randrange(1, 1 << 40), 'lt~%d' % rng.choice(LOCKS)]), 'rsignk', 'dig', 'vfy']
                     cs_.append(sess_case('form_' + mode, mode, tx, ops))
+    # ---- H. inputs whose witness type is NOT passed: the library infers it from the locking script / address / script type /
+    #         unlocking script of the form (with the private keys: k*, without: i*; add_input or Input(...) + constructor).
+    #         `inf` reads the type the library holds per input and the preimage sign() would use, before and after signing
+    cs_.extend(gen_inferred(rng, big))
     # ---- F. random walks over everything
     for _ in range(1500 if big else 80):
         mode = rng.choice(['apik', 'apib', 'ctor', 'apikr', 'api', 'parse'])
@@ -760,6 +772,51 @@ def gen_sessions(rng, big):
                 core.append(rng.choice(['dig', 'vfy', 'raw']))
         core.append('sau' if priv else 'rsignk')
         cs_.append(sess_case('walk', mode, tx, observe(rng, core, pol(), priv)))
+    return cs_
+
+
+_WITH_ADDRESS = ('p2pkh', 'p2wpkh', 'p2wsh', 'p2sh_multisig', 'p2sh_p2wpkh', 'p2sh_p2wsh')
+INFER_KINDS = {
+    # nothing to infer from but the script type: native segwit kinds cannot be described that way
+    'kn': ('p2pkh', 'p2pk', 'p2sh_multisig', 'p2sh_p2wpkh', 'p2sh_p2wsh'), 'knc': ('p2pkh', 'p2pk', 'p2sh_multisig', 'p2sh_p2wpkh', 'p2sh_p2wsh'),
+    'kl': SESS_KINDS, 'klc': SESS_KINDS, 'il': SESS_KINDS, 'ilc': SESS_KINDS,
+    'ka': _WITH_ADDRESS, 'kac': _WITH_ADDRESS, 'kla': _WITH_ADDRESS, 'ia': _WITH_ADDRESS,
+}
+
+
+_NESTED = {'p2sh_p2wpkh': 'p2wpkh', 'p2sh_p2wsh': 'p2wsh'}
+
+
+def gen_inferred(rng, big):
+    cs_ = []
+    nested_keyed = _recorded('nested_from_locking_script_keyed')
+    for mode in INFER_MODES:
+        kinds = INFER_KINDS[mode]
+        for kind in kinds:
+            for rep in range(3 if big else 1):
+                for shape in ((kind,), (rng.choice(kinds), kind), (kind, rng.choice(kinds), rng.choice(kinds))):
+                    if 'l' in mode and not (nested_keyed and kind in _NESTED and (mode[0] == 'k' or kind == 'p2sh_p2wsh')):
+                        # nested kinds from their P2SH locking script: recorded class nested_p2wpkh_from_locking_script
+                        # (key-less, modes fl / fla) and proposed class nested_from_locking_script_keyed (see below)
+                        shape = tuple(_NESTED.get(k_, k_) for k_ in shape)
+                    elif 'l' in mode:
+                        shape = (kind,) * len(shape)      # the recorded class hides nothing else
+                    tx = gen_tx(rng, list(shape), n_out=rng.choice([1, 2, 3]), sw=True, net=rng.choice(['bitcoin', 'testnet', 'litecoin']))
+                    for x in tx['ins']:
+                        if len(x['keys']) > 3:
+                            x['keys'], x['m'] = x['keys'][:3], min(x['m'], 3)
+                        x['value'] = rng.choice([546, 100000000, 0x100000001]) if rng.random() < 0.5 else rng.randrange(1, 1 << 50)
+                    tx['ver'] = rng.choice([0, 1, 2])
+                    if tx['ver'] == 1 and any(0 < x['seq'] < 0x80000000 for x in tx['ins']):
+                        tx['ver'] = 2
+                    sk = 'sign' if mode in INFER_K_MODES else 'signk'
+                    # key-less inputs have no script code before the keys arrive: first reading after sign(keys)
+                    ops = (['inf'] if mode in INFER_K_MODES else []) + [sk, 'inf', 'dig', 'vfy']
+                    if rng.random() < 0.4:
+                        ops += [rng.choice(['oval~0~%d' % rng.randrange(1, 1 << 40), 'lt~%d' % rng.choice(LOCKS),
+                                            'seq~0~%d' % rng.choice([0xfffffffd, 0xfffffffe, 0xffffffff])]),
+                                'sau' if mode in INFER_K_MODES else 'rsignk', 'inf', 'vfy']
+                    cs_.append(sess_case('infer_' + mode, mode, tx, ops))
     return cs_
 
 
@@ -1058,7 +1115,12 @@ def verify_signed(tx, raw, digest_of):
 # what the request asked the library to DO to the serialised fields: version, locktime, outpoints, sequences and
 # outputs are read from the bytes Transaction.raw() returned at that moment (own parser read_raw); only the description
 # of the outputs being spent (kind, keys, m, amount) — which no serialisation carries — follows the request.
-PRIV_MODES = ('apik', 'apib', 'apikr', 'ctor')
+INFER_K_MODES = ('kn', 'kl', 'ka', 'kla', 'klc', 'kac', 'knc')
+INFER_I_MODES = ('il', 'ia', 'ilc')
+# inputs whose witness type (and, for single-key kinds, script type) is left to the library to infer from the locking
+# script / address / script type / unlocking script; k*: private keys passed with the input, i*: keys arrive with sign(keys)
+INFER_MODES = INFER_K_MODES + INFER_I_MODES
+PRIV_MODES = ('apik', 'apib', 'apikr', 'ctor') + INFER_K_MODES
 SIGNING_OPS = ('sign', 'rsign', 'signk', 'rsignk', 'sau', 'saui', 'slrb', 'slrt', 'slb', 'slt', 'merge',
                'signkh', 'signkb', 'signkw', 'signkd')
 SIGNK_FORMS = ('signkh', 'signkb', 'signkw', 'signkd')
@@ -1191,7 +1253,9 @@ def session_check(c, out, exempt_p2pk_resigned=False):
         where = 'step %d (%s)' % (step, op.split('~')[0])
         if a == 'BADOP':
             return 'unexpected answer BADOP at ' + where
-        if a[:2] not in ('D=', 'V=') or a in ('D=ERR', 'V=ERR'):
+        if a == 'I=ERR' and t[1] in INFER_MODES:
+            return '%s: Transaction.raw() refuses a transaction built from inputs whose types the library infers' % where
+        if a[:2] not in ('D=', 'V=', 'I=') or a in ('D=ERR', 'V=ERR', 'I=ERR'):
             continue
         body = a[2:].split('#')
         try:
@@ -1202,6 +1266,29 @@ def session_check(c, out, exempt_p2pk_resigned=False):
         if len(rt['ins']) != len(info):
             return '%s: Transaction.raw() has %d inputs, %d expected' % (where, len(rt['ins']), len(info))
         txr = _tx_from_raw(rt, info, sw)
+        if a[:2] == 'I=':
+            # the witness type the library holds for every input (inferred or given) must be the one of the output being
+            # spent, and the preimage Transaction.signature gives for THAT type (what sign() signs) the consensus one
+            for ent in ([] if body[1] == '-' else body[1].split(',')):
+                e = ent.split('.')
+                pos = int(e[0])
+                if e[1] == 'ERR':
+                    return '%s: Transaction.signature(%d, 1, <witness type of the input>) raises' % (where, pos)
+                want_wt = WT_OF[info[pos]['kind']]
+                if e[1] != want_wt:
+                    return ('%s: input %d spends a %s output but the library holds witness type %r for it (expected %r): '
+                            'sign() would use the wrong digest algorithm' % (where, pos, info[pos]['kind'], e[1], want_wt))
+                pre = b'' if e[2] == '-' else bytes.fromhex(e[2])
+                if dsha(pre).hex() != e[3]:
+                    return '%s: signature_hash(%d, 1) is not the double SHA256 of what Transaction.signature returns' % (where, pos)
+                if not (0 < info[pos]['value'] < (1 << 64)) or (want_wt != 'leg' and not sw):
+                    continue
+                want, dig = consensus_sighash(txr, pos, 1)
+                if want is None or pre != want:
+                    return ('%s: the preimage sign() would use for input %d (%s, witness type held by the input: %s) is not '
+                            'the consensus preimage: library digest %s, consensus digest %s'
+                            % (where, pos, info[pos]['kind'], e[1], e[3][:16], dig.hex()[:16]))
+            continue
         if a[:2] == 'D=':
             if body[1] == '-':
                 continue
@@ -1262,7 +1349,7 @@ def session_same(c, io, mo):
     for a, m in zip(ia, ma):
         if a.startswith('E:'):
             return True
-        if a[:2] in ('D=', 'R=', 'V='):
+        if a[:2] in ('D=', 'R=', 'V=', 'I='):
             body = a[2:].split('#')
             if body[0] == 'ERR':
                 return False
@@ -1279,6 +1366,12 @@ def session_same(c, io, mo):
                 return False
             if a[:2] == 'R=':
                 if mb[1:] != body[1:]:
+                    return False
+            elif a[:2] == 'I=':
+                # position . witness type . preimage (the model: k_wtype of the kind, ob_signature with it)
+                ie = [] if body[1] == '-' else ['.'.join(x.split('.')[:3]) for x in body[1].split(',')]
+                me = [] if mb[1] == '-' else mb[1].split(',')
+                if ie != me:
                     return False
             else:
                 ie = [] if body[1] == '-' else ['.'.join(x.split('.')[:3]) for x in body[1].split(',')]
@@ -1346,6 +1439,8 @@ def prop_check(c, out):
 def same(c, io, mo):
     t = c.req.split(' ')
     if t[0] == 'sess':
+        if _nested_from_lock_keyed(c, io, mo):
+            return True      # proposed class nested_from_locking_script_keyed: same reason, the keyed / P2SH-P2WSH forms
         if t[1] in ('fl', 'fla') and _nested_from_lock(c, io, mo):
             # recorded class nested_p2wpkh_from_locking_script: the construction form is not a parameter of the model (it
             # answers with the digests of the keyed input); generated only while the class is recorded
@@ -1423,8 +1518,23 @@ def _nested_from_lock(c, io, mo):
     return all(x['kind'] == 'p2sh_p2wpkh' for x in tx_of_tok(t[2])['ins'])
 
 
+def _nested_from_lock_keyed(c, io, mo):
+    """P2SH-P2WPKH inputs created WITH their keys, or P2SH-P2WSH inputs (keys are part of the script), together with the
+    P2SH locking script of the output they spend (a914 <script hash> 87) and no witness_type: same root as
+    nested_p2wpkh_from_locking_script (Input.__init__ takes the script hash for the public-key hash).  Decided from the
+    case: a construction mode that passes the locking script (kl / kla / klc, for P2SH-P2WSH also il / ilc) and every
+    input of the transaction is of a nested kind; generated only while the class is recorded"""
+    t = c.req.split(' ')
+    if t[0] != 'sess' or t[1] not in ('kl', 'kla', 'klc', 'il', 'ilc') or not _recorded('nested_from_locking_script_keyed'):
+        return False
+    kinds = [x['kind'] for x in tx_of_tok(t[2])['ins']]
+    return all(k in _NESTED for k in kinds) and (t[1][0] == 'k' or all(k == 'p2sh_p2wsh' for k in kinds))
+
+
 KNOWN_CLASSES = {
     'nested_p2wpkh_from_locking_script': _nested_from_lock,
+    # proposed (fixes/C01-known-nested-from-locking-script-keyed.json); dead while the entry is not recorded
+    'nested_from_locking_script_keyed': _nested_from_lock_keyed,
     # index_n != list position was repaired (fixes/C01-2): no class for it, the permuted-index stream must pass
     'legacy_non_all_hashtype': lambda c, io, mo: _legacy_non_all(c),
     # repaired by fixes/C01-3 (proposed); the predicate is live only while the finding is recorded as known instead
